@@ -1153,13 +1153,25 @@ class GenModel:
     dropped: int
     value_types: dict
 
-    def feeds(self, seed, style=None):
-        """Another input tuple of the same shapes; overridable initializers keep defaults (not fed)."""
+    def feeds(self, seed, style=None, override=False):
+        """Another input tuple of the same shapes.  override=True also feeds drawn values (same dtype/shape) to the
+        overridable initializer-inputs; otherwise they keep their defaults (not fed)."""
         rng = np.random.default_rng(seed)
         out = {}
         for name, dt, shape in self.input_specs:
             out[name] = make_array(int(rng.integers(0, 2**31 - 1)), dt, tuple(shape), style or ["mixed", "edge", "smallint"][int(rng.integers(0, 3))])
+        if override and self.overridable:
+            inits = {i.name: i for i in self.model.graph.initializer}
+            for name in self.overridable:
+                default = numpy_helper.to_array(inits[name])
+                out[name] = make_array(int(rng.integers(0, 2**31 - 1)), default.dtype, default.shape,
+                                       ["smallint", "edge", "mixed"][int(rng.integers(0, 3))])
         return out
+
+    def seeds(self, k=2):
+        """Feed seeds as a pure function of the model (no extra Hypothesis draws -> no duplicated hosts)."""
+        h = int(model_hash(self.model), 16)
+        return [(h + 7919 * i) % (2**31 - 1) for i in range(k)]
 
 
 @st.composite
